@@ -57,6 +57,40 @@ class AsgiEmit(Client):
     def init_cs(self):
         return "q0"
 
+    def _volatile_attrs(self) -> Set[str]:
+        """attributes of the response that a CONCURRENT task of the same object writes: stored by a method whose call is handed to
+        ensure_future / create_task / gather (the disconnect watcher's `_client_closed`): what a path knew about them before an
+        await is not known after it"""
+        if not hasattr(self, "_vol"):
+            vol: Set[str] = set()
+            meths = [m for c in self.p.mro(self.cls) if isinstance(c, ClassInfo) for m in c.methods.values()]
+            spawned: Set[str] = set()
+            for m in meths:
+                for c in ast.walk(m.node):
+                    if isinstance(c, ast.Call) and ast.unparse(c.func).split(".")[-1] in ("ensure_future", "create_task", "gather", "wait", "run_coroutine_threadsafe"):
+                        for a in ast.walk(c):
+                            if isinstance(a, ast.Call) and isinstance(a.func, ast.Attribute) and isinstance(a.func.value, ast.Name) and a.func.value.id == "self":
+                                spawned.add(a.func.attr)
+            for m in meths:
+                if m.name in spawned:
+                    for n in ast.walk(m.node):
+                        if isinstance(n, (ast.Assign, ast.AugAssign, ast.AnnAssign)):
+                            for t in (n.targets if isinstance(n, ast.Assign) else [n.target]):
+                                if isinstance(t, ast.Attribute) and isinstance(t.value, ast.Name) and t.value.id == "self":
+                                    vol.add(t.attr)
+            self._vol = vol
+        return self._vol
+
+    def after_await(self, interp, node, st):
+        vol = self._volatile_attrs()
+        if not vol:
+            return st
+        from ..flow import contains
+        cells = [("attr", ("param", "self"), a) for a in vol]
+        facts = frozenset((f, t) for f, t in st.facts if not any(contains(f, c) for c in cells))
+        st2 = st.drop(lambda k: k[0] == "H" and k[1] in cells)
+        return State(st2.env, facts, st2.cs) if facts != st.facts else st2
+
     def want_inline(self, fi: FuncInfo, interp: Interp, node) -> bool:
         if fi.name in ("send_http_start", "send_http_body", "run_in_threadpool", "open_for_sendfile", "__init__"):
             return False
@@ -708,3 +742,19 @@ def run(p: Program, rep: Report, tier: str) -> None:
         else:
             rep.violation("R5.9", construct(fn_, text=cons), where(fn_, node), msg)
     rep.require_instances("R5.9", 5)
+
+    # ---------------------------------------------------------------- R5.10 nobody but the response calls the server's start_response (WSGI)
+    # The request object keeps the server's callback (`self._start_response = start_response`) so that a response can be
+    # started later - by the ONE call in the response's __call__. Any other call of the stored callback (a middleware's capture
+    # function forwarding `exc_info`, a helper "flushing early") is a second start of the same response.
+    from ..common import stored_callback_calls
+    inits = [c_.methods["__init__"] for m_ in ("baize.wsgi.requests", "baize.wsgi.middleware") for c_ in p.module(m_).classes.values() if "__init__" in dict.keys(c_.methods)]
+    wsgi_fns = [f_ for m_ in p.modules.values() if m_.name.startswith("baize.wsgi") or m_.name in ("baize.requests", "baize.responses") for f_ in m_.all_funcs]
+    calls10 = stored_callback_calls(p, inits, "start_response", wsgi_fns)
+    for f_, c_, attr_ in calls10:
+        rep.violation("R5.10", construct(f_, text=f"call of the stored server callback .{attr_}(...)"), where(f_, c_),
+                      f"{f_.fq} calls the server's start_response kept on the request (`.{attr_}`): the response built afterwards calls start_response again - two starts for one request "
+                      "(e.g. an inner application's start_response(..., exc_info) forwarded by the middleware)")
+    if not calls10:
+        rep.ok("R5.10", f"the server callback stored by {len(inits)} constructor(s) is never called from package code (only handed on / compared)")
+    rep.require_instances("R5.10", 1)
